@@ -173,6 +173,41 @@ def _try_harness(prop, flavour, ds):
     def cb_body(i, s, x):
         return "if f_%d_%d { %s } else { %s(%s.wrapping_add(%d)) }" % (i, s, fail(i, s), OK, x, K(i, s))
 
+    # later steps rotate over operator kinds: in a try macro a step only starts when the previous one succeeded,
+    # so recovery operators (`~<=`, `~<|`, `~!>`) of a later step are never applied to a failure
+    def later_kind(i, s):
+        # odd steps can fail (and_then); even steps rotate over recovery / pass-through operators, so that a failure in a
+        # non-final step is always followed by an operator that would "repair" it if the step check were skipped
+        if s % 2 == 1:
+            return "and_then"
+        return ["or_else", "then", "map_err" if not opt else "or", "and_then", "or_else"][(i + len(ds) + s // 2) % 5]
+
+    def later_macro(i, s):
+        k = later_kind(i, s)
+        c = "code(K_CALL, %d, %d, 0)" % (i, s)
+        if k == "and_then":
+            return "~=> |x: u8| { ev(%s); %s }" % (c, cb_body(i, s, "x"))
+        if k == "or_else":
+            return ("~<= || { ev(%s); Some(%du8) }" % (c, K(i, s))) if opt else ("~<= |e: u8| { ev(%s); Ok::<u8, u8>(e.wrapping_add(%d)) }" % (c, K(i, s)))
+        if k == "or":
+            return "~<| tag(%s, Some(%du8))" % (c, K(i, s))
+        if k == "map_err":
+            return "~!> |e: u8| { ev(%s); e.wrapping_add(%d) }" % (c, K(i, s))
+        if k == "then":
+            return "~-> |r: %s| { ev(%s); r.and_then(|x: u8| %s) }" % (ty, c, cb_body(i, s, "x"))
+        raise KeyError(k)
+
+    def later_ref(i, s):
+        """reference for one later step of branch i, whose current value v_i is a success"""
+        k = later_kind(i, s)
+        if k in ("and_then", "then"):
+            return "ev(code(K_CALL, %d, %d, 0)); let r%d: %s = %s;" % (i, s, i, ty, cb_body(i, s, "v%d" % i))
+        if k == "or":
+            # `.or(operand)`: the operand expression is evaluated (eagerly), the value stays
+            return "ev(code(K_CALL, %d, %d, 0)); let r%d: %s = %s(v%d);" % (i, s, i, ty, OK, i)
+        # or_else / map_err callbacks are not invoked on a success
+        return "let r%d: %s = %s(v%d);" % (i, ty, OK, i)
+
     # ---- program
     brs = []
     for i in range(n):
@@ -185,7 +220,7 @@ def _try_harness(prop, flavour, ds):
         else:
             t = "a%d => |x: u8| { ev(code(K_CALL, %d, 0, 0)); %s }" % (i, i, cb_body(i, 0, "x"))
             for s in range(1, ds[i]):
-                t += " ~=> |x: u8| { ev(code(K_CALL, %d, %d, 0)); %s }" % (i, s, cb_body(i, s, "x"))
+                t += " " + later_macro(i, s)
         brs.append(t)
         nev += ds[i]
     mac = "try_join_async" if is_async else "try_join"
@@ -214,7 +249,7 @@ def _try_harness(prop, flavour, ds):
                 b += "        let r%d: %s = match a%d { %s(x) => { ev(code(K_CALL, %d, 0, 0)); %s } other => other };\n" % (
                     i, ty, i, OK, i, cb_body(i, 0, "x"))
             else:
-                b += "        ev(code(K_CALL, %d, %d, 0)); let r%d: %s = %s;\n" % (i, s, i, ty, cb_body(i, s, "v%d" % i))
+                b += "        %s\n" % later_ref(i, s)
         b += "        // ... then the lowest-numbered failing branch decides\n"
         for i in act:
             if opt:
@@ -250,7 +285,7 @@ def _try_harness(prop, flavour, ds):
                 b += "    assert!(%d >= tlen() || fail_step < 0 || (step_of(tr(%d)) as i32) <= fail_step, \"C06: event of a step after the failing one\");\n" % (k, k)
     # ---- covers (vacuity guards)
     b += "    kani_cover!(r.is_%s());\n" % ("some" if opt else "ok")
-    if max(ds) > 1:
+    if any(later_kind(i, s) in ("and_then", "then") for i in range(n) for s in range(1, ds[i])):
         b += "    kani_cover!(fail_step >= 1);\n"
     name = "%s_try_%s_%s" % (prop.lower(), flavour, pname(ds))
     return Harness(name, harness_fn(name, b, unwind=((3 + max(ds)) if is_async else None)), prog,
@@ -460,6 +495,28 @@ def fam_async(prop, tier):
     return out
 
 
+def _async_lazy_harnesses(prop):
+    """C09 laziness: NOTHING the user wrote is evaluated before the first poll - initial values, block operands of any
+    step, and a handler written as a block (then / map / and_then)"""
+    out = []
+    progs = [
+        ("then_block", "join_async", "u8",
+         "tag(code(K_INIT, 0, 0, 0), gate(0, code(K_POLL, 0, 0, 0), 1u8)), gate(0, code(K_POLL, 1, 0, 0), 2u8) |> { ev(code(K_CAP, 1, 0, 1)); |x: u8| x + 1 }, then => { ev(code(K_HANDLER, 0, 0, 1)); |a: u8, b: u8| core::future::ready(a + b) }", "4"),
+        ("map_block", "try_join_async", "Result<u8, u8>",
+         "gate(0, code(K_POLL, 0, 0, 0), Ok::<u8, u8>(1)) ~|> { ev(code(K_CAP, 0, 1, 0)); |r: Result<u8, u8>| r }, { ev(code(K_INIT, 1, 0, 0)); gate(0, code(K_POLL, 1, 0, 0), Ok::<u8, u8>(2)) }, map => { ev(code(K_HANDLER, 0, 0, 1)); |a: u8, b: u8| a + b }", "Ok(3)"),
+        ("and_then_block", "try_join_async", "Result<u8, u8>",
+         "gate(0, code(K_POLL, 0, 0, 0), Ok::<u8, u8>(1)), and_then => { ev(code(K_HANDLER, 0, 0, 1)); |a: u8| core::future::ready(Ok::<u8, u8>(a + 5)) }", "Ok(6)"),
+    ]
+    for (name, mac, rty, body, exp) in progs:
+        b = "    let fut = %s! { %s };\n" % (mac, body)
+        b += "    assert!(tlen() == 0, \"C09: something was evaluated before the first poll\");\n"
+        b += "    let (out, polls) = run(fut, 1);\n    assert!(out.is_some());\n    let r: %s = out.unwrap();\n    assert!(r == %s);\n" % (rty, exp)
+        b += "    assert!(tlen_kind(K_HANDLER) == 1);\n"
+        hn = "%s_lazy_%s" % (prop.lower(), name)
+        out.append(Harness(hn, harness_fn(hn, b, unwind=TMAX + 2), "%s! { %s }" % (mac, body), note="laziness incl. block handler / block operands"))
+    return out
+
+
 def _async_harness(prop, mac, ds):
     n = len(ds)
     is_try = mac.startswith("try")
@@ -613,6 +670,10 @@ CHAINS = [
      "a.into_iter().filter(|x: &u8| *x > 1).map(|x: u8| x.wrapping_mul(2)).enumerate().filter_map(|(i, x): (usize, u8)| if i < 2 { Some(x) } else { None }).fold(0u8, |acc: u8, x: u8| acc.wrapping_add(x))", "u8", 5),
     ("chain_deferred", OPT, "o |> |x: u8| x.wrapping_add(1) ~=> |x: u8| if x > 3 { Some(x) } else { None } ~?> |x: &u8| *x < 200 ~<| Some(1u8)",
      "o.map(|x: u8| x.wrapping_add(1)).and_then(|x: u8| if x > 3 { Some(x) } else { None }).filter(|x: &u8| *x < 200).or(Some(1u8))", "Option<u8>", 0),
+    ("operand_blocks_opt", OPT, "{ o } |> { |x: u8| x.wrapping_add(1) } <| { Some(2u8) } ?> { |x: &u8| *x > 1 } <= { || Some(3u8) }",
+     "({ o }).map({ |x: u8| x.wrapping_add(1) }).or({ Some(2u8) }).filter({ |x: &u8| *x > 1 }).or_else({ || Some(3u8) })", "Option<u8>", 0),
+    ("operand_blocks_res_steps", RES, "r0 !> { |e: u8| e.wrapping_add(1) } <= { |e: u8| if e > 9 { Ok::<u8, u8>(e) } else { Err(e) } } ~<| { Err::<u8, u8>(7) } ~!> { |e: u8| e.wrapping_mul(2) } => { |x: u8| Ok::<u8, u8>(x) }",
+     "r0.map_err({ |e: u8| e.wrapping_add(1) }).or_else({ |e: u8| if e > 9 { Ok::<u8, u8>(e) } else { Err(e) } }).or({ Err::<u8, u8>(7) }).map_err({ |e: u8| e.wrapping_mul(2) }).and_then({ |x: u8| Ok::<u8, u8>(x) })", "Result<u8, u8>", 0),
     ("init_binary", "    let x: u8 = kani::any();\n", "x & 0x0f | 1 .. pow(2)", "(x & 0x0f | 1).pow(2)", "u8", 0),
     ("init_unary", "    let y: i8 = kani::any(); kani::assume(y > -11 && y < 11);\n", "-y .. pow(2)", "(-y).pow(2)", "i8", 0),
     ("init_cast", "    let x: u8 = kani::any();\n", "x as u16 .. wrapping_mul(300)", "(x as u16).wrapping_mul(300)", "u16", 0),
@@ -804,6 +865,11 @@ def fam_tok(prop, tier):
             ("wrapper_scope_borrows_move_only", "    let s = Tok::new(7);\n",
              "try_join! { Some(Some(a)) ~|> >>> |> |v: u8| v.wrapping_add(s.0) <<<, Some(Some(1u8)) |> >>> |> |v: u8| v.wrapping_add(s.0) }",
              "Option<(Option<u8>, Option<u8>)>", "r == Some((Some(a.wrapping_add(7)), Some(8))) && s.0 == 7"),
+        ]
+        extra += [
+            ("block_capture_in_wrapper_not_clone", "    let mut seen = 0u8;\n",
+             "try_join! { Some(Some(a)) => >>> |> { let t = Tok::new(1); move |v: u8| v.wrapping_add(t.0) } <<<, Some(Some(2u8)) |> >>> |> { let s = &mut seen; move |v: u8| { *s = v; v } } }",
+             "Option<(u8, Option<u8>)>", "r == Some((a.wrapping_add(1), Some(2))) && seen == 2"),
         ]
         for (name, pre, prog, rty, ok) in extra:
             b = "    let a: u8 = kani::any();\n" + pre
@@ -1078,6 +1144,26 @@ def _let_harness(prop, mac, ds, mask):
     return Harness(hn, harness_fn(hn, b, unwind=(3 if is_async else None)), prog, note="profile %s, named branches mask %s" % (ds, bin(mask)))
 
 
+def _let_loose_harnesses(prop):
+    """naming a branch must not change its value, also when the initial value binds looser than a method call"""
+    out = []
+    progs = [
+        ("binary_unary", "join", "(Option<u8>, Option<i8>, Option<u8>)",
+         "let x = a & 0x0f | 1 .. checked_mul(2), let mut y = -b .. checked_abs(), let z = a as u16 .. checked_sub(1000) ~<| { Some(u16::from(x.unwrap_or(0))) } |> |v: u16| v as u8",
+         "a & 0x0f | 1 .. checked_mul(2), -b .. checked_abs(), a as u16 .. checked_sub(1000) ~<| { Some(u16::from((a & 0x0f | 1).checked_mul(2).unwrap_or(0))) } |> |v: u16| v as u8"),
+        ("ref_closure", "try_join", "Option<(u8, u8)>",
+         "let p = &a .. checked_add(1), let q = Some(3u8) ~|> { let s = p.unwrap_or(0); move |v: u8| v.wrapping_add(s) }",
+         "&a .. checked_add(1), Some(3u8) ~|> { let s = (&a).checked_add(1).unwrap_or(0); move |v: u8| v.wrapping_add(s) }"),
+    ]
+    for (name, mac, rty, named, unnamed) in progs:
+        b = "    let a: u8 = kani::any();\n    let b: i8 = kani::any(); kani::assume(b > -100);\n"
+        b += "    let r1: %s = %s! { %s };\n    let r2: %s = %s! { %s };\n" % (rty, mac, named, rty, mac, unnamed)
+        b += "    assert!(r1 == r2, \"C12: writing `let name =` in front of a branch changed the macro's result\");\n"
+        hn = "%s_let_loose_%s" % (prop.lower(), name)
+        out.append(Harness(hn, harness_fn(hn, b), "%s! { %s }" % (mac, named), note="named vs unnamed, loose-precedence initial values"))
+    return out
+
+
 # ======================================================================================
 # Family HANDLER (C13)
 # ======================================================================================
@@ -1272,8 +1358,9 @@ def _transpose_harness(prop, ds):
     return Harness(hn, harness_fn(hn, b, unwind=TMAX + 2), prog, note="transposing joiner, profile %s" % (ds,))
 
 
-FAMILIES["C12"] = [fam_let]
-FAMILIES["C13"] = [fam_handler]
+FAMILIES["C12"] = [fam_let, lambda p, t: _let_loose_harnesses(p)]
+FAMILIES["C13"] = [fam_handler, lambda p, t: _async_lazy_harnesses(p)]
+FAMILIES["C09"] = [fam_async, lambda p, t: _async_lazy_harnesses(p)]
 FAMILIES["C16"] = [fam_options]
 
 
